@@ -35,7 +35,7 @@ MIN_OBS = {"requests_issued": 5000, "rejected_with_documented_class": 5000, "poo
 CASE_TIMEOUT = 120
 EDITS = ["calc_missing", "sel_missing", "sort_missing", "proj_missing", "join_pred_missing", "calc_existing_tag", "chain_columns",
          "chain_engines", "join_engines", "unsupported_calc", "unsupported_sel", "unsupported_sort", "unsupported_join_pred",
-         "slice_negative", "slice_reversed", "slice_step", "slice_nonslice", "reused_predicate"]
+         "slice_negative", "slice_reversed", "slice_step", "slice_nonslice", "reused_predicate", "join_min_columns"]
 
 
 def budget(tier):
@@ -153,6 +153,18 @@ def run_case(case):
                         calls = [(o, lambda kw: rel.with_rows_satisfying(exprs.plib(["rcmp", "lt", ["ref", some], ["lit", 1], none_supported]), **kw)) for o in combos]
                     else:
                         calls = [(o, lambda kw: rel.sorted([R.SortTerm(exprs.elib(["rfn", "neg", [["ref", some]], none_supported]))], **kw)) for o in combos]
+                elif edit == "join_min_columns":
+                    # explicit Join.min_columns / resolved common columns that the target does not have
+                    if rel.is_join_identity:
+                        continue
+                    mt = T(missing)
+                    fixed = rel.engine.make_leaf({mt}, iteration.RowSequence([{mt: 1}]) if isinstance(rel.engine, iteration.Engine) else db.make_table("jm", [mt], [{mt: 1}]), name=f"JM{nreq}")
+                    calls = [
+                        (None, lambda kw: R.Join(min_columns=frozenset({mt})).apply(rel, fixed)),
+                        (None, lambda kw: R.Join(min_columns=frozenset({mt}), max_columns=frozenset({mt})).apply(rel, fixed)),
+                        (None, lambda kw: R.Join(min_columns=frozenset({mt}), max_columns=frozenset({mt})).apply(fixed, rel)),
+                        ({"bt": True, "tr": False}, lambda kw: R.Join(min_columns=frozenset({mt})).partial(fixed, is_lhs=True).apply(rel)),
+                    ]
                 elif edit == "reused_predicate":
                     # the same predicate OBJECT is first used where it is well-formed (a join whose other
                     # operand supplies its column) and then where that column is missing
